@@ -260,6 +260,8 @@ func c13(c *ctx) {
 				c.run.Violate("notokens:"+id, s.name+": successful parse without tokens", w())
 			} else if inv := tokenInvariants(rr.Toks, rr.Toks[len(rr.Toks)-1].R, rr.NRunes); inv != "" {
 				c.run.Violate("offsets:"+id, s.name+": reported offsets do not index the rune sequence: "+inv, w())
+			} else if rr.NoPrint {
+				c.run.Count("shipped_trees_too_large_to_print_(tokens_x_runes_over_budget)", 1)
 			} else if want := treeFromTokens(rr.Toks, runes); want != rr.Sprint {
 				c.run.Violate("slices:"+id, s.name+": the printed syntax tree is not what slicing the rune sequence by the tokens gives: "+firstDiff([]byte(rr.Sprint), []byte(want)), w())
 			}
